@@ -1,4 +1,5 @@
 """C02 - reported error estimate is honest; full_output record is self-consistent (partial)."""
+import math
 import warnings
 
 import numpy as np
@@ -232,6 +233,29 @@ def small_median_cases(ctx):
         ('Jacobian', '1e-9 (sin(2 pi x), cos(2 pi y)) at (0.1, 0.2)', lambda v: amp * np.array([np.sin(two_pi * v[0]) + 0.0 * v[1], np.cos(two_pi * v[1]) + 0.0 * v[0]]), z,
          amp * two_pi * np.array([[np.cos(two_pi * z[0]), 0.0], [0.0, -np.sin(two_pi * z[1])]])),
     ]
+    # sharply localised and fast oscillating functions with the default steps, for BOTH signs of the derivative (the large default steps
+    # give estimates collapsed to ~0 that agree with each other; only the outlier penalty keeps them from being selected)
+    sg = 0.01
+    loc = [('exp(-x**2/(2*0.01**2))', lambda t: np.exp(-t * t / (2 * sg * sg)), lambda t: -t / (sg * sg) * math.exp(-t * t / (2 * sg * sg))),
+           ('-exp(-x**2/(2*0.01**2))', lambda t: -np.exp(-t * t / (2 * sg * sg)), lambda t: t / (sg * sg) * math.exp(-t * t / (2 * sg * sg))),
+           ('np.sin(200*x)', lambda t: np.sin(200 * t), lambda t: 200 * math.cos(200 * t)),
+           ('-np.sin(200*x)', lambda t: -np.sin(200 * t), lambda t: -200 * math.cos(200 * t))]
+    for src, f, df in loc:
+        for x0 in ((0.01, -0.01) if 'exp' in src else (0.0,)):
+            for method in ('central', 'forward'):
+                try:
+                    with warnings.catch_warnings():
+                        warnings.simplefilter('ignore')
+                        got, info = nd.Derivative(f, method=method, full_output=True)(x0)
+                except Exception:   # noqa
+                    continue
+                ctx.count(1, ('honesty-localised', method))
+                exact = df(x0)
+                err, est = abs(float(got) - exact), float(np.ravel(info.error_estimate)[0])
+                if not (np.isfinite(est) and err <= K_HONEST * est + 1e-6 * abs(exact)):
+                    return ctx.violation('honesty:localised:%s' % method,
+                                         'nd.Derivative(lambda x: %s, method=%r, full_output=True)(%r) = %r with error_estimate %r, exact %r' % (src, method, x0, float(got), est, exact),
+                                         {'f': src, 'x': x0, 'method': method, 'value': float(got), 'error_estimate': est, 'exact': exact})
     for cname, what, f, x, exact in cases:
         try:
             with warnings.catch_warnings():
